@@ -64,12 +64,19 @@ func MakeULID(site string) ulid.ULID {
 		e[0] = byte(s.entropy >> 7)
 		e[1] = byte(s.entropy >> 3)
 		_ = id.SetEntropy(e[:])
-		if !s.issued[id] {
+		dup := false
+		for i := range s.issued {
+			if s.issued[i] == [16]byte(id) {
+				dup = true
+				break
+			}
+		}
+		if !dup {
 			break
 		}
 		s.entropy++ // never hand out a duplicate
 	}
-	s.issued[id] = true
+	s.issued = append(s.issued, [16]byte(id))
 	s.stats.ULIDs++
 	return id
 }
